@@ -107,6 +107,7 @@ Definition event_ok (e : event) (index : bytes) (dec : option N) (o : lobs) : bo
 
 Inductive lcase :=
 | LEs (t : twire) (attrs : event)
+| LEsVia (al : list (bytes * bytes)) (t : twire) (attrs : event)
 | LHec (h : hec)
 | LOtlp (res : otlp_res) (sc : otlp_scope) (r : otlp_rec)
 | LSpan (s : span).
@@ -115,6 +116,7 @@ Definition lcase_ok (c : lcase * bytes * lobs) : bool :=
   let '(lc, index, o) := c in
   match lc with
   | LEs t attrs => event_ok (es_build t attrs) index None o
+  | LEsVia al t attrs => event_ok (es_build t attrs) (real_index al index) None o
   | LHec h => event_ok (hec_build h) index None o
   | LOtlp res sc r => event_ok (otlp_log_build res sc r) index (otlp_log_dec r) o
   | LSpan s => event_ok (span_build s) index None o
